@@ -714,4 +714,349 @@ theorem colMajorSizeHint_state (rows columns k : Nat) (hfit : rows * columns ≤
       have : rows * columns - k = 0 := by omega
       simp [this]
 
+/-! ### generic facts about enumerating iterators and the flavours on top -/
+
+section Generic
+variable {σ π κ α : Type}
+
+theorem _root_.EasyMl.Spec.Enumerates.collect_from {next : σ → Outcome (Option π × σ)} {s0 : σ} {total : Nat}
+    {item : Nat → Option π} {state : Nat → σ} (E : Enumerates next s0 total item state)
+    (n j : Nat) :
+    collect next n (state j) = .ok ((List.range' j n).map item, state (j + n)) := by
+  induction n generalizing j with
+  | zero => simp [collect]
+  | succ n ih =>
+    have e : j + 1 + n = j + (n + 1) := by omega
+    simp only [collect, E.step j, ih (j + 1), List.range'_succ, List.map_cons, e]
+
+theorem _root_.EasyMl.Spec.Enumerates.item_none {next : σ → Outcome (Option π × σ)} {s0 : σ} {total : Nat}
+    {item : Nat → Option π} {state : Nat → σ} (E : Enumerates next s0 total item state)
+    (k : Nat) (hk : total ≤ k) : item k = none := by
+  cases h : item k with
+  | none => rfl
+  | some p =>
+    have := (E.some_iff k).mp (by simp [h])
+    omega
+
+/-- the reference flavours enumerate the cells of the positions -/
+theorem _root_.EasyMl.Spec.Enumerates.ref {next : σ → Outcome (Option π × σ)} {s0 : σ} {total : Nat}
+    {item : Nat → Option π} {state : Nat → σ} (E : Enumerates next s0 total item state)
+    (cell : π → Option κ) :
+    Enumerates (refNext next cell) s0 total (fun k => (item k).map cell) state where
+  start := E.start
+  step k := by simp [refNext, E.step k]
+  some_iff k := by simpa using E.some_iff k
+
+theorem _root_.EasyMl.Spec.Enumerates.copy {next : σ → Outcome (Option π × σ)} {s0 : σ} {total : Nat}
+    {item : Nat → Option π} {state : Nat → σ} (E : Enumerates next s0 total item state)
+    (cell : π → Option κ) (mem : κ → α) :
+    Enumerates (copyNext next cell mem) s0 total (fun k => (item k).map fun p => (cell p).map mem)
+      state where
+  start := E.start
+  step k := by simp [copyNext, E.step k]
+  some_iff k := by simpa using E.some_iff k
+
+/-- `WithIndex` over an enumerating iterator whose counter shows the position about to be
+    yielded enumerates the pairs (position, item) -/
+theorem _root_.EasyMl.Spec.Enumerates.withIndex {β : Type} {next : σ → Outcome (Option β × σ)} {s0 : σ} {total : Nat}
+    {item : Nat → Option β} {state : Nat → σ} (E : Enumerates next s0 total item state)
+    (counter : σ → π) :
+    Enumerates (withIndexNext counter next) s0 total
+      (fun k => (item k).map fun x => (counter (state k), x)) state where
+  start := E.start
+  step k := by simp [withIndexNext, E.step k]
+  some_iff k := by simpa using E.some_iff k
+
+/-- memory in which the listed cells hold the placeholder -/
+def visitedMem [DecidableEq κ] (mem0 : κ → α) (placeholder : α) (cells : List κ) : κ → α :=
+  fun c => if c ∈ cells then placeholder else mem0 c
+
+theorem owned_collect_from [DecidableEq κ] {next : σ → Outcome (Option π × σ)} {s0 : σ}
+    {total : Nat} {item : Nat → Option π} {state : Nat → σ}
+    (E : Enumerates next s0 total item state) (cell : π → Option κ) (cellOf : Nat → κ)
+    (hcell : ∀ k, k < total → ∃ p, item k = some p ∧ cell p = some (cellOf k))
+    (hinj : ∀ j k, j < total → k < total → cellOf j = cellOf k → j = k)
+    (mem0 : κ → α) (placeholder : α) (n j : Nat) :
+    collect (ownedNext next cell placeholder) n
+        (state j, visitedMem mem0 placeholder ((List.range (min j total)).map cellOf)) =
+      .ok ((List.range' j n).map (fun k => if k < total then some (some (mem0 (cellOf k))) else none),
+        (state (j + n),
+          visitedMem mem0 placeholder ((List.range (min (j + n) total)).map cellOf))) := by
+  induction n generalizing j with
+  | zero => simp [collect]
+  | succ n ih =>
+    rcases Nat.lt_or_ge j total with hj | hj
+    · obtain ⟨p, hp, hc⟩ := hcell j hj
+      have hnot : cellOf j ∉ (List.range (min j total)).map cellOf := by
+        intro hmem
+        obtain ⟨i, hi, he⟩ := List.mem_map.mp hmem
+        have hi' := List.mem_range.mp hi
+        have := hinj i j (by omega) hj he
+        omega
+      have hmem : update (visitedMem mem0 placeholder ((List.range (min j total)).map cellOf))
+          (cellOf j) placeholder =
+          visitedMem mem0 placeholder ((List.range (min (j + 1) total)).map cellOf) := by
+        funext c
+        have e1 : min j total = j := by omega
+        have e2 : min (j + 1) total = j + 1 := by omega
+        simp only [update, visitedMem, e1, e2, List.range_succ, List.map_append, List.mem_append,
+          List.map_cons, List.map_nil, List.mem_singleton]
+        by_cases hcj : c = cellOf j
+        · simp [hcj]
+        · simp [hcj]
+      have hstep : ownedNext next cell placeholder
+          (state j, visitedMem mem0 placeholder ((List.range (min j total)).map cellOf)) =
+          .ok (some (some (mem0 (cellOf j))), (state (j + 1),
+            visitedMem mem0 placeholder ((List.range (min (j + 1) total)).map cellOf))) := by
+        simp only [ownedNext, E.step j, hp, hc, hmem]
+        simp [visitedMem, hnot]
+      have e : j + 1 + n = j + (n + 1) := by omega
+      simp only [collect, hstep, ih (j + 1), List.range'_succ, List.map_cons, hj, if_true, e]
+    · have hnone := E.item_none j hj
+      have e1 : min j total = min (j + 1) total := by omega
+      have hstep : ownedNext next cell placeholder
+          (state j, visitedMem mem0 placeholder ((List.range (min j total)).map cellOf)) =
+          .ok (none, (state (j + 1),
+            visitedMem mem0 placeholder ((List.range (min (j + 1) total)).map cellOf))) := by
+        simp only [ownedNext, E.step j, hnone, e1]
+      have : ¬ j < total := by omega
+      have e : j + 1 + n = j + (n + 1) := by omega
+      simp only [collect, hstep, ih (j + 1), List.range'_succ, List.map_cons, this, if_false, e]
+
+end Generic
+
+
+/-! ### the concrete iterators enumerate their specification -/
+
+theorem shape_enumerates (shape : List Nat) :
+    Enumerates shapeNext (ShapeIter.new shape) (prod shape) (shapeItem shape)
+      (fun k => ShapeIter.steps k (ShapeIter.new shape)) where
+  start := rfl
+  step k := by
+    simp only [shapeNext, steps_succ]
+    congr 1
+    obtain ⟨hs, hlt, hge⟩ := steps_spec shape k
+    rcases Nat.lt_or_ge k (prod shape) with hk | hk
+    · obtain ⟨hf, hi⟩ := hlt hk
+      have hb : inBounds (ShapeIter.steps k (ShapeIter.new shape)).shape
+          (ShapeIter.steps k (ShapeIter.new shape)).indexes = true := by
+        rw [hs, hi]; exact unravel_inBounds shape k hk
+      have := (next_spec _ hf hb).1
+      rw [hi] at this
+      simp only [shapeItem, hk, if_true, ← this]
+    · have : ¬ k < prod shape := by omega
+      rw [next_finished _ (hge hk)]
+      simp [shapeItem, this]
+  some_iff k := by
+    unfold shapeItem
+    split <;> simp [*]
+
+theorem rowMajor_enumerates (rows columns : Nat) :
+    Enumerates rowMajorNext (MatIter.new rows columns) (rows * columns)
+      (rowMajorItem rows columns) (rowMajorState rows columns) where
+  start := rowMajorState_zero rows columns
+  step k := rowMajorNext_state rows columns k
+  some_iff k := by
+    unfold rowMajorItem
+    split <;> simp [*]
+
+theorem colMajor_enumerates (rows columns : Nat) :
+    Enumerates colMajorNext (MatIter.new rows columns) (rows * columns)
+      (colMajorItem rows columns) (colMajorState rows columns) where
+  start := colMajorState_zero rows columns
+  step k := colMajorNext_state rows columns k
+  some_iff k := by
+    unfold colMajorItem
+    split <;> simp [*]
+
+/-- a `Range`-based iterator after `k` calls -/
+def lineState (line : Line) (stop k : Nat) : LineIter := ⟨line, ⟨min k stop, stop⟩⟩
+
+theorem line_enumerates (line : Line) (stop : Nat) :
+    Enumerates lineNext ⟨line, ⟨0, stop⟩⟩ stop
+      (fun k => if k < stop then some (line.position k) else none) (lineState line stop) where
+  start := by simp [lineState]
+  step k := by
+    simp only [lineNext, LineIter.next, lineState, RangeIter.next]
+    rcases Nat.lt_or_ge k stop with hk | hk
+    · have e1 : min k stop = k := by omega
+      have e2 : min (k + 1) stop = k + 1 := by omega
+      simp [e1, e2, hk]
+    · have e1 : min k stop = stop := by omega
+      have e2 : min (k + 1) stop = stop := by omega
+      have : ¬ k < stop := by omega
+      simp [e1, e2, this]
+  some_iff k := by split <;> simp [*]
+
+theorem lineState_sizeHint (line : Line) (stop k : Nat) :
+    (lineState line stop k).sizeHint = (stop - k, some (stop - k)) := by
+  simp only [LineIter.sizeHint, lineState, RangeIter.sizeHint]
+  rcases Nat.lt_or_ge k stop with hk | hk
+  · have e1 : min k stop = k := by omega
+    simp [e1, hk]
+  · have e1 : min k stop = stop := by omega
+    have : stop - k = 0 := by omega
+    simp [e1, this]
+
+/-! ### the counter read by `WithIndex` is the position about to be yielded -/
+
+theorem shapeNext_counter (it it' : ShapeIter) (p : List Nat)
+    (h : shapeNext it = .ok (some p, it')) : it.indexes = p := by
+  simp only [shapeNext, ShapeIter.next] at h
+  split at h
+  · simp at h
+  · split at h <;> simp at h <;> exact h.1
+
+theorem rowMajorNext_counter (it it' : MatIter) (p : Nat × Nat)
+    (h : rowMajorNext it = .ok (some p, it')) : (it.rowCounter, it.columnCounter) = p := by
+  unfold rowMajorNext at h
+  split at h
+  · simp at h
+  · repeat' split at h
+    all_goals first | (simp at h; done) | (simp at h; exact h.1)
+
+theorem colMajorNext_counter (it it' : MatIter) (p : Nat × Nat)
+    (h : colMajorNext it = .ok (some p, it')) : (it.rowCounter, it.columnCounter) = p := by
+  unfold colMajorNext at h
+  split at h
+  · simp at h
+  · repeat' split at h
+    all_goals first | (simp at h; done) | (simp at h; exact h.1)
+
+
+
+section Generic2
+variable {σ π κ α : Type}
+
+/-- `WithIndex` over a reference iterator pairs every cell with the position it was fetched
+    from, provided the counter shows the position about to be yielded -/
+theorem _root_.EasyMl.Spec.Enumerates.withIndex_ref {next : σ → Outcome (Option π × σ)} {s0 : σ}
+    {total : Nat} {item : Nat → Option π} {state : Nat → σ}
+    (E : Enumerates next s0 total item state) (counter : σ → π)
+    (hcounter : ∀ s s' p, next s = .ok (some p, s') → counter s = p) (cell : π → Option κ) :
+    Enumerates (withIndexNext counter (refNext next cell)) s0 total
+      (fun k => (item k).map fun p => (p, cell p)) state where
+  start := E.start
+  step k := by
+    have hs := E.step k
+    simp only [withIndexNext, refNext, hs]
+    cases hi : item k with
+    | none => simp
+    | some p =>
+      rw [hi] at hs
+      simp [hcounter _ _ _ hs]
+  some_iff k := by simpa using E.some_iff k
+
+/-- distinct calls hand out distinct cells, if distinct calls visit distinct positions and the
+    source maps distinct valid positions to distinct cells -/
+theorem cellOf_injective {total : Nat} {item : Nat → Option π} (cell : π → Option κ)
+    (valid : π → Prop) (cellOf : Nat → κ)
+    (hcell : ∀ k, k < total → ∃ p, item k = some p ∧ valid p ∧ cell p = some (cellOf k))
+    (hitem : ∀ j k p, j < total → k < total → item j = some p → item k = some p → j = k)
+    (hsrc : ∀ p q c, valid p → valid q → cell p = some c → cell q = some c → p = q)
+    (j k : Nat) (hj : j < total) (hk : k < total) (h : cellOf j = cellOf k) : j = k := by
+  obtain ⟨p, hp, vp, cp⟩ := hcell j hj
+  obtain ⟨q, hq, vq, cq⟩ := hcell k hk
+  rw [h] at cp
+  have := hsrc p q _ vp vq cp cq
+  subst this
+  exact hitem j k p hj hk hp hq
+
+end Generic2
+
+/-! ### positions are visited once -/
+
+theorem shapeItem_injective (shape : List Nat) (j k : Nat) (p : List Nat)
+    (hj : shapeItem shape j = some p) (hk : shapeItem shape k = some p) : j = k := by
+  unfold shapeItem at hj hk
+  split at hj <;> split at hk <;> simp at hj hk
+  exact unravel_injective shape j k ‹_› ‹_› (hj.trans hk.symm)
+
+theorem rowMajorItem_injective (rows columns j k : Nat) (p : Nat × Nat)
+    (hj : rowMajorItem rows columns j = some p) (hk : rowMajorItem rows columns k = some p) :
+    j = k := by
+  unfold rowMajorItem at hj hk
+  split at hj <;> split at hk <;> simp at hj hk
+  have h := hj.trans hk.symm
+  simp only [Prod.mk.injEq] at h
+  have h1 := Nat.div_add_mod j columns
+  have h2 := Nat.div_add_mod k columns
+  rw [h.1, h.2] at h1
+  omega
+
+theorem colMajorItem_injective (rows columns j k : Nat) (p : Nat × Nat)
+    (hj : colMajorItem rows columns j = some p) (hk : colMajorItem rows columns k = some p) :
+    j = k := by
+  unfold colMajorItem at hj hk
+  split at hj <;> split at hk <;> simp at hj hk
+  have h := hj.trans hk.symm
+  simp only [Prod.mk.injEq] at h
+  have h1 := Nat.div_add_mod j rows
+  have h2 := Nat.div_add_mod k rows
+  rw [h.1, h.2] at h1
+  omega
+
+theorem rowMajorItem_valid (rows columns k : Nat) (p : Nat × Nat)
+    (h : rowMajorItem rows columns k = some p) : p.1 < rows ∧ p.2 < columns := by
+  unfold rowMajorItem at h
+  split at h <;> simp at h
+  subst h
+  rename_i hk
+  have hc : 0 < columns := Nat.pos_of_ne_zero fun h => by subst h; simp at hk
+  exact ⟨(Nat.div_lt_iff_lt_mul hc).mpr hk, Nat.mod_lt _ hc⟩
+
+theorem colMajorItem_valid (rows columns k : Nat) (p : Nat × Nat)
+    (h : colMajorItem rows columns k = some p) : p.1 < rows ∧ p.2 < columns := by
+  unfold colMajorItem at h
+  split at h <;> simp at h
+  subst h
+  rename_i hk
+  have hr : 0 < rows := Nat.pos_of_ne_zero fun h => by subst h; simp at hk
+  exact ⟨Nat.mod_lt _ hr, (Nat.div_lt_iff_lt_mul hr).mpr (by rw [Nat.mul_comm]; exact hk)⟩
+
+/-! ### sources -/
+
+/-- a `Matrix` maps distinct in-range positions to distinct cells -/
+theorem ofMatrix_cell (rows columns : Nat) (p : Nat × Nat) (hp : p.1 < rows ∧ p.2 < columns) :
+    (MSource.ofMatrix rows columns).cell p = some (p.2 + p.1 * columns) := by
+  simp [MSource.ofMatrix, hp]
+
+theorem ofMatrix_injective (rows columns : Nat) (p q : Nat × Nat) (c : Nat)
+    (hp : p.1 < rows ∧ p.2 < columns) (hq : q.1 < rows ∧ q.2 < columns)
+    (h1 : (MSource.ofMatrix rows columns).cell p = some c)
+    (h2 : (MSource.ofMatrix rows columns).cell q = some c) : p = q := by
+  rw [ofMatrix_cell _ _ _ hp] at h1
+  rw [ofMatrix_cell _ _ _ hq] at h2
+  have h : p.2 + p.1 * columns = q.2 + q.1 * columns := by
+    simp only [Option.some.injEq] at h1 h2; omega
+  have hr : p.1 = q.1 := by
+    rcases Nat.lt_trichotomy p.1 q.1 with hlt | heq | hgt
+    · exfalso
+      have : (p.1 + 1) * columns ≤ q.1 * columns := Nat.mul_le_mul_right _ hlt
+      rw [Nat.add_mul] at this; omega
+    · exact heq
+    · exfalso
+      have : (q.1 + 1) * columns ≤ p.1 * columns := Nat.mul_le_mul_right _ hgt
+      rw [Nat.add_mul] at this; omega
+  rw [hr] at h
+  exact Prod.ext hr (by omega)
+
+/-- a `Tensor` resolves an in-bounds index to its row-major offset -/
+theorem ofTensor_cell {ν α : Type} [DecidableEq ν] (shape : Shape ν) (data : List α)
+    (t : Tensor ν α) (ht : Tensor.tryFrom shape data = some t) (idx : List Nat)
+    (hb : inBounds (shape.map (·.2)) idx = true) :
+    (TSource.ofTensor t).cell idx = some (ravel (shape.map (·.2)) idx) ∧
+      (TSource.ofTensor t).shape = shape.map (·.2) := by
+  unfold Tensor.tryFrom at ht
+  split at ht
+  · simp at ht
+  · simp only [Option.some.injEq] at ht
+    subst ht
+    have hlen : idx.length = shape.length := by
+      have := inBounds_length _ _ hb; simpa using this
+    simp only [TSource.ofTensor, Tensor.offset, getIndexDirect]
+    rw [getIndexDirectGo_eq shape idx 0 hlen]
+    simp [hb]
+
+
 end EasyMl.Iter
